@@ -36,9 +36,26 @@ type Case struct {
 	Via string `json:"via"` // storage | http
 }
 
+// toggleCfg concentrates on one bucket and a hot key with frequent versioning
+// changes and deletes, so that rows are reused below delete markers and across
+// Enabled/Suspended switches (seeded defect S-C11-1: stale tags on a reused null row).
+func toggleCfg() prog.GenConfig {
+	g := genCfg()
+	g.Buckets, g.Keys, g.HotKey, g.MinOps = 1, 2, true, 8
+	g.Weights = map[string]int{
+		prog.OpSetVersioning: 7, prog.OpPut: 10, prog.OpCopy: 5, prog.OpAppend: 2, prog.OpMpuSeq: 2,
+		prog.OpPutTags: 2, prog.OpDeleteTags: 1, prog.OpTransition: 2, prog.OpDelete: 7, prog.OpGet: 1,
+	}
+	return g
+}
+
 func gen(t *rapid.T, env *ev.Env) Case {
 	stack := rapid.SampledFrom([]string{"P2", "N1", "N2", "P1"}).Draw(t, "stack")
-	c := Case{ProgCase: run.ProgCase{Stack: stack, Ops: genCfg().Gen(t)}, Via: rapid.SampledFrom([]string{"storage", "http"}).Draw(t, "via")}
+	cfg := genCfg()
+	if (rapid.IntRange(0, 2).Draw(t, "profileA")+rapid.IntRange(0, 2).Draw(t, "profileB"))%3 == 1 {
+		cfg = toggleCfg()
+	}
+	c := Case{ProgCase: run.ProgCase{Stack: stack, Ops: cfg.Gen(t)}, Via: rapid.SampledFrom([]string{"storage", "http"}).Draw(t, "via")}
 	if c.Via == "http" {
 		// over HTTP an object without a content type is served as application/octet-stream
 		// (S3's default); keep that value out of the explicit content types so that the
@@ -126,6 +143,9 @@ func runCase(env *ev.Env, c Case) ev.Outcome {
 	}
 	if directiveCopyOntoOther {
 		o.Class("copy-with-differing-directives")
+	}
+	if st.OKByKind[prog.OpSetVersioning] >= 2 && st.OKByKind[prog.OpDelete] > 0 {
+		o.Class("versioning-switched-twice-with-delete")
 	}
 	for k, v := range st.OKByKind {
 		o.Count("ok:"+k, v)
